@@ -91,6 +91,12 @@ func (in *Interp) classify2(fn *ssa.Function, fi *fnInfo, allowStub bool) {
 			}
 		}
 	}
+	if strings.HasPrefix(name, "reflect.TypeFor[") && len(fn.TypeArgs()) == 1 {
+		ta := fn.TypeArgs()[0]
+		fi.kind = 1
+		fi.ext = func(fr *frame, args []value) value { return mkRtype(ta) }
+		return
+	}
 	if ext, ok := externals[name]; ok {
 		fi.kind = 1
 		inner := ext
